@@ -283,6 +283,9 @@ class Run:
         return True
 
     def finish(self):
+        if self.level not in ("exploration", "fault_enumeration", "model_checking", "proof", "translation_validation", "other"):
+            self.notes.append("level label given by the check: %r (schema category: proof)" % self.level)
+            self.level = "proof"
         ev = {
             "property_id": self.pid, "tier": self.tier, "seed": self.seed, "level": self.level,
             "coverage": self.coverage, "assumptions": self.assumptions,
